@@ -267,6 +267,14 @@ def auto_discharge(prog, site):
         a = [sig(x) for x in site.operands]
         if len(a) == 2 and all(x.startswith("Denom::") and x.endswith("{}") for x in a) and a[0] != a[1]:
             return ("D1", "PoolKey::new of two distinct constant denominations")
+        # one side ranging over a literal array of constants (`for other in [Denom::Sym, Denom::Erg]`)
+        import re as _re
+        for fixed, var in ((a[0], a[1]), (a[1], a[0])) if len(a) == 2 else ():
+            m = _re.match(r"^elem\(array\((.*)\)\)$", var)
+            if m and fixed.startswith("Denom::") and fixed.endswith("{}"):
+                alts = [x.strip() for x in m.group(1).split(",")]
+                if alts and all(x.startswith("Denom::") and x.endswith("{}") and x != fixed for x in alts):
+                    return ("D1", "PoolKey::new of a constant denomination and an element of a literal array of other constants")
     return None
 
 
